@@ -25,7 +25,24 @@ func main() {
 	replay := flag.String("replay", "", "violation file to re-evaluate")
 	noEvidence := flag.Bool("no-evidence", false, "do not write evidence files")
 	overlayFile := flag.String("overlay", "", "JSON file {abs path: contents} applied as source overlay (variant pass)")
+	dumpSymbols := flag.String("dump-symbols", "", "write the symbol table of -repo (baseline for rename resolution) to this file and exit")
 	flag.Parse()
+	if *dumpSymbols != "" {
+		c, err := core.Load(*repo, "quick", nil)
+		if err != nil {
+			fmt.Println("load failed:", err)
+			os.Exit(2)
+		}
+		b, err := c.DumpSymbols()
+		if err == nil {
+			err = os.WriteFile(*dumpSymbols, b, 0o644)
+		}
+		if err != nil {
+			fmt.Println("cannot write symbol table:", err)
+			os.Exit(2)
+		}
+		return
+	}
 
 	seed := int64(0)
 	if s := os.Getenv("VERIF_SEED"); s != "" {
@@ -97,6 +114,9 @@ func main() {
 
 	t0 := time.Now()
 	c, lerr := core.Load(*repo, *tier, overlay)
+	if lerr == nil {
+		c.Baseline = core.LoadBaseline(filepath.Join(*verif, "tables", "baseline_symbols.json"))
+	}
 	fail := false
 	for _, id := range ids {
 		t1 := time.Now()
@@ -105,7 +125,11 @@ func main() {
 			r.Undecided("LOAD", "program", "-", lerr.Error())
 			c = &core.Ctx{RepoDir: *repo}
 		} else {
+			c.ResetRenamesUsed()
 			runOne(c, r, props.Get(id))
+			for _, rn := range c.RenamesUsed() {
+				r.Assume("RENAMED", rn, "-", "an anchored name is absent; the only new symbol of the same scope with the identical type is taken to be its new name (tables/baseline_symbols.json)")
+			}
 		}
 		if replayKey != "" {
 			var keep []core.Obl
